@@ -1130,7 +1130,7 @@ def oracle(case, obs):
     for i, attr, p in obs['class_leaks']:
         if attr not in seen_leak:
             seen_leak.add(attr)
-            bad('class-mutable-reachable|%s' % attr.split('.')[-1], 'instance root %d reaches the class-level object %s at path %s: the class and every instance that stores it observe each other' % (i, attr, p))
+            bad('instance-holds-class-object|%s' % attr.split('.')[-1], 'instance root %d reaches the class-level object %s at path %s: the class and every instance that stores it observe each other' % (i, attr, p))
     # 4. mutation battery
     reported = set()
     leaky = set(leak_paths)
